@@ -1,3 +1,3 @@
 """Sidecar contracts.  Load order matters (records before the contracts that mention them)."""
 ORDER = ["types", "cluster_views", "batch", "make_batch", "results", "result", "results_summary", "cluster", "job_queue", "hpc_submitter", "run_command",
-         "slurm", "job_submitter", "resource_monitor", "pipeline", "async_cli", "job_runner", "resubmit", "config_checks", "aggregator", "cli", "events_agg"]
+         "slurm", "job_submitter", "resource_monitor", "pipeline", "async_cli", "job_runner", "resubmit", "config_checks", "aggregator", "cli", "events_agg", "hpc_init"]
